@@ -11,6 +11,8 @@ import Nstd.Sha.Spec
      hmac <key> <msg> Sha256::hmac                                       -> <digest hex>
      spec <hex>       model side: FIPS 180-4 spec (`Spec.sha256`); real side: Sha256::hash
      spechmac <k> <m> model side: RFC 2104 spec (`Spec.hmacSha256`); real side: Sha256::hmac
+     updatenull / hashnull / hmacnullkey <msg> / hmacnullmsg <key>
+                      real side: the empty input is passed as (nullptr, 0); model side: the empty list
   The observable is the digest; `update`/`rst` print `ok` only.
 -/
 open Nstd.Common
@@ -24,6 +26,16 @@ def stepLine (st : Sha) (ws : List String) : Sha × String :=
   | ["reset"] => (init, "ok")
   | ["rst"] => (reset st, "ok")
   | ["final"] => let r := finalize st; (r.2, hexOf r.1)
+  | ["updatenull"] => (update st [], "ok")
+  | ["hashnull"] => (st, hexOf (hash []))
+  | ["hmacnullkey", m] =>
+    match fromHex m with
+    | some m => (st, hexOf (hmac [] (toBytes m)))
+    | none => (st, "bad-op")
+  | ["hmacnullmsg", k] =>
+    match fromHex k with
+    | some k => (st, hexOf (hmac (toBytes k) []))
+    | none => (st, "bad-op")
   | ["update", d] =>
     match fromHex d with
     | some b => (update st (toBytes b), "ok")
